@@ -372,7 +372,10 @@ def run_case(case):
                         devs.append(('C09', 'assoc-merge-raised', f'merging the associated stores raised {type(e).__name__}: {e}'))
         elif not case['valid']:
             if outcome == 'ok':
-                devs.append(('C09', 'invalid-merge-accepted', 'inputs with differing field sets / mixed identification were merged'))
+                mixed_ids = len({bool(x['ids']) for x in ins}) > 1
+                # "a store must be either fully identified or not at all" is C08's clause as well, also for merged stores
+                for prop in (('C09', 'C08') if mixed_ids else ('C09',)):
+                    devs.append((prop, 'invalid-merge-accepted', 'inputs with differing field sets / mixed identification were merged' + (' (identified and unidentified inputs)' if mixed_ids else '')))
             else:
                 why = readable_everywhere(out, paths, ins)
                 if why:
